@@ -482,7 +482,8 @@ func (t *Topic) infoSubsOffline(from types.Uid, what string, seq int, skipSid st
 
 	for uid, pud := range t.perUser {
 		mode := pud.modeGiven & pud.modeWant
-		if pud.deleted || !mode.IsJoiner() || !mode.IsPresencer() || !mode.IsReader() {
+		// Channel readers don't get read receipts or typing notifications.
+		if pud.deleted || pud.isChan || !mode.IsJoiner() || !mode.IsPresencer() || !mode.IsReader() {
 			continue
 		}
 
